@@ -763,6 +763,15 @@ def _xreload_module(module, filename, force=False):
     new_mod.__doc__ = doc
     if hasattr(module, "__path__"):
         new_mod.__path__ = module.__path__
+        # The import system sets ``package.submodule`` when the submodule is
+        # first loaded.  Executing the package's code again doesn't load the
+        # submodules again, so it wouldn't recreate these attributes.
+        prefix = module.__name__ + "."
+        for fullname, submod in list(sys.modules.items()):
+            attr = fullname[len(prefix):]
+            if (fullname.startswith(prefix) and attr and "." not in attr and
+                getattr(module, attr, None) is submod):
+                setattr(new_mod, attr, submod)
     MISSING = object()
     saved_mod = sys.modules.get(module.__name__, MISSING)
     try:
